@@ -61,12 +61,15 @@ func H_C06_RouterInfo() {
 	ident, _, err := router_identity.ReadRouterIdentity(identityBytes(cry, pub))
 	nd.Assume(err == nil)
 	var addrs []*router_address.RouterAddress
-	na := nd.IntRange(0, 1)
-	if nd.Thorough() {
-		na = nd.IntRange(0, 2)
-	}
+	na := nd.IntRange(0, 2)
 	for i := 0; i < na; i++ {
-		a, aerr := router_address.NewRouterAddress(nd.Byte(), time.Time{}, nd.String(nd.IntRange(1, 2)), tinyOptions())
+		ts, opts := nd.String(nd.IntRange(1, 2)), map[string]string{}
+		if na == 2 && !nd.Thorough() {
+			ts = nd.String(2) // two addresses (costs free, in any order): transport length and options pinned in the quick tier
+		} else {
+			opts = tinyOptions()
+		}
+		a, aerr := router_address.NewRouterAddress(nd.Byte(), time.Time{}, ts, opts)
 		nd.Assert(aerr == nil, "ri/address-constructed")
 		if aerr != nil {
 			return
@@ -76,7 +79,11 @@ func H_C06_RouterInfo() {
 	sk := i2ped.Ed25519PrivateKey(priv)
 	ms := nd.Int64()
 	nd.Assume(ms >= 0)
-	ri, rerr := router_info.NewRouterInfo(ident, time.UnixMilli(ms), addrs, smallOptions(), &sk, 7)
+	ropts := map[string]string{}
+	if na < 2 || nd.Thorough() {
+		ropts = smallOptions()
+	}
+	ri, rerr := router_info.NewRouterInfo(ident, time.UnixMilli(ms), addrs, ropts, &sk, 7)
 	nd.Assert(rerr == nil && ri != nil, "ri/constructed")
 	if rerr != nil || ri == nil {
 		return
